@@ -338,6 +338,7 @@ pub fn iter_diff(v: &IterCase, rep: &mut Rep, strict: bool) -> Result<(), String
     rep.label_if(truncated, "truncated_stream");
     rep.label_if(with_logger, "with_logger");
     rep.label_if(!inject.is_empty(), "embedded_markers");
+    rep.label_if(stream.elems.iter().any(|e| matches!(e, Elem::G(g) if g.len >= 65_000)), "garbage_run_ge_64k");
     rep.label_if(bytes.len() > cap, "stream_larger_than_buffer");
     rep.label_if(enc.msgs.iter().any(|m| m.1.payload.len >= 60000), "msg_ge_60000");
     rep.label_if(stream.serial, "serial");
@@ -385,6 +386,23 @@ fn suffix_check(v: &(Stream, u16, u32), rep: &mut Rep) -> Result<(), String> {
 fn huge_stream() -> impl Strategy<Value = Stream> {
     (stream(8, true, 5000), prop::collection::vec((any::<u16>(), any::<u16>()), 0..5)).prop_map(|(mut s, bumps)| {
         let idx: Vec<usize> = s.elems.iter().enumerate().filter(|(_, e)| matches!(e, Elem::M(_))).map(|(i, _)| i).collect();
+        // long runs of garbage (around and beyond the 64 KiB of look-ahead the reader keeps): resynchronisation may
+        // never search only what happens to be buffered
+        let gidx: Vec<usize> = s.elems.iter().enumerate().filter(|(_, e)| matches!(e, Elem::G(_))).map(|(i, _)| i).collect();
+        for (a, b) in bumps.iter().take(2) {
+            if !gidx.is_empty() && a % 3 == 0 {
+                let i = gidx[(*b as usize * gidx.len()) >> 16];
+                if let Elem::G(g) = &mut s.elems[i] {
+                    g.len = match a % 5 {
+                        0 => 65_500 + (*b as usize % 120),
+                        1 => 70_000 + (*b as usize % 50),
+                        2 => 131_000 + (*b as usize % 200),
+                        3 => 400_000 + (*b as usize % 100),
+                        _ => 65_536 + (*b as usize % 40),
+                    };
+                }
+            }
+        }
         for (a, b) in bumps {
             if idx.is_empty() {
                 break;
@@ -423,7 +441,7 @@ pub fn def(tier: Tier) -> PropertyDef {
                 .rates(&[("source_larger_than_buffer", 0.2), ("tight_capacity_big_low_mark", 0.05), ("seek_without_fill", 0.3)])
                 .boxed(),
             sub("iter_diff_huge", tier.pick(15_000, 300_000), (huge_stream(), inject.clone(), extra.clone(), sched(), start.clone()), |v, r| iter_diff(v, r, false))
-                .rates(&[("stream_larger_than_buffer", 0.2), ("embedded_markers", 0.2), ("foreign_framing_marker", 0.05), ("truncated_stream", 0.1), ("with_logger", 0.2)])
+                .rates(&[("stream_larger_than_buffer", 0.2), ("embedded_markers", 0.2), ("foreign_framing_marker", 0.05), ("truncated_stream", 0.1), ("with_logger", 0.2), ("garbage_run_ge_64k", 0.1)])
                 .boxed(),
             sub("iter_diff_many_small", tier.pick(4_000, 80_000), (many_small(), inject, extra, sched(), start.clone()), |v, r| iter_diff(v, r, false))
                 .rates(&[("stream_larger_than_buffer", 0.3)])
